@@ -13,4 +13,7 @@ theorem es_365 : Tables.periodOf "rp2_es" = some 365 := Tables.period_es
 theorem jp_never : ∃ p, Tables.periodOf "rp2_jp" = some p ∧ 3652059 < p := Tables.period_jp_never
 theorem ie_never : ∃ p, Tables.periodOf "rp2_ie" = some p ∧ 3652059 < p := Tables.period_ie_never
 theorem generic_configured : Tables.periodOf "rp2_generic" = some 123 := Tables.period_generic_env
+theorem generic_takes_configured_value : Gen.genericPeriodProbe =
+    [("0", "0"), ("1", "1"), ("365", "365"), ("366", "366"), ("1000000000", "1000000000"), ("-1", "rejected"), ("-365", "rejected"),
+     ("abc", "rejected"), ("1.5", "rejected"), ("", "rejected"), (" 12 ", "12")] := Tables.generic_period_is_the_configured_value
 end Rp2.C05
